@@ -144,8 +144,28 @@ def pw_diff(a, b):
     return sp.expand(a.xreplace(rep) - b.xreplace(rep))
 
 
+def check_liveness(chk, F, cls, f):
+    """R2, shape-independent part: a buffer that receives gradient data (as the mutable out-parameter of a cost functor,
+    the quadrature or a spline gradient routine, or by accumulation) must be read again before evaluate() returns -
+    otherwise that contribution never reaches grad_out."""
+    from ..wsdef import WsDef
+    inst = f["full"].split("evaluate")[1][:60]
+    wsrec = cls + "::Workspace"
+    spline_cls = next(x["ty"]["n"] for x in F.record(wsrec)["fields"] if x["name"] == "spline")
+    W = WsDef(F, cls, wsrec, spline_cls, {})
+    W.fn_stack.append(f)
+    W.stmts(f["body"]["body"])
+    if len(W.carrying) < 4:
+        raise Broken("%s%s: fewer than four gradient-carrying workspace buffers recognised (%s)" % (cls, inst, sorted(W.carrying)))
+    for fld in sorted(W.carrying):
+        dead = W.pending.get(fld)
+        chk.ob("C07-R2", "%s%s what is accumulated into %s is used before evaluate returns" % (cls, inst, fld), dead is None, loc(dead[1], dead[0]) if dead else loc(f),
+               ("the value written by '%s' is never read afterwards" % pp(dead[0])[:80]) if dead else "", construct="%s/live%s/%s" % (cls, inst, fld))
+
+
 def check_assembly(chk, F, cls, f, order, spl):
     chk.saw(f)
+    check_liveness(chk, F, cls, f)
     inst = f["full"].split("evaluate")[1][:60]
     void = "VoidWaypointsCost" in f["full"]
     sc = Scope(f)
@@ -210,10 +230,14 @@ def check_assembly(chk, F, cls, f, order, spl):
     where = loc(f)
     def one(name):
         return len(marks[name]) == 1
-    for nm in ("spline update", "time cost", "add time-cost gradient", "integral", "propagate", "energy gradient"):
+    # this rule reads evaluate() as a sequence of recognisable phases; when the phases cannot be found (a step moved into
+    # a helper, a loop split or merged) the rule has no opinion: analysis-broken, not a violation
+    missing = [nm for nm in ("spline update", "time cost", "integral", "propagate", "energy gradient") if len(marks[nm]) == 0]
+    if missing or len(fors) != 2 or len(rfors) != 2:
+        raise Broken("%s%s: the assembly phases of evaluate() are not recognisable (missing %s; %d index loops, %d layout loops at top level)" % (cls, inst, missing, len(fors), len(rfors)))
+    for nm in ("spline update", "time cost", "integral", "propagate", "energy gradient"):
         chk.ob("C07-R2", "%s%s step '%s' occurs exactly once" % (cls, inst, nm), one(nm), where, str(marks[nm]), construct="%s/order%s/%s" % (cls, inst, nm))
-    if not all(one(nm) for nm in ("spline update", "time cost", "integral", "propagate", "energy gradient")) or len(fors) != 2 or len(rfors) != 2:
-        chk.ob("C07-R2", "%s%s evaluate has the expected phases" % (cls, inst), False, where, "loops: %s %s" % (fors, rfors), construct="%s/order%s/phases" % (cls, inst))
+    if not all(one(nm) for nm in ("spline update", "time cost", "integral", "propagate", "energy gradient")):
         return
     upd, tc, integ, prop, eg = (marks[nm][0] for nm in ("spline update", "time cost", "integral", "propagate", "energy gradient"))
     dec_t, back_t = fors
@@ -224,6 +248,8 @@ def check_assembly(chk, F, cls, f, order, spl):
         chk.ob("C07-R2", "%s%s '%s' precedes '%s'" % (cls, inst, a, b), ia < ib, where, "%d < %d" % (ia, ib), construct="%s/order%s/%s<%s" % (cls, inst, a[:12], b[:12]))
     # decode of the boundary blocks happens before the update; their gradient write-back after the energy terms
     calls_l = [k for k, (s, g) in enumerate(flat) if s.get("k") == "expr" and s["e"].get("k") == "call" and callee(s["e"]).get("lid")]
+    if len(calls_l) != 2:
+        raise Broken("%s%s: the two boundary-block traversals of evaluate() are not recognisable at top level (%d found)" % (cls, inst, len(calls_l)))
     chk.ob("C07-R2", "%s%s boundary blocks are decoded before the spline update and written back after all gradient terms" % (cls, inst),
            len(calls_l) == 2 and calls_l[0] < upd and calls_l[1] > eg and calls_l[1] > back_s, where, str(calls_l), construct="%s/order%s/blocks" % (cls, inst))
     # arguments of the three central calls
